@@ -144,8 +144,10 @@ func (cc *ClusterContext) schedule() bool {
 		metrics.GetSchedulerMetrics().ObserveSchedulingLatency(schedulingStart)
 		if result != nil {
 			if result.ResultType == objects.Replaced {
-				// communicate the removal to the RM
-				cc.notifyRMAllocationReleased(psc.RmID, psc.Name, []*objects.Allocation{result.Request.GetRelease()}, si.TerminationType_PLACEHOLDER_REPLACED, "replacing allocationKey: "+result.Request.GetAllocationKey())
+				// communicate the removal to the RM, unless the replacement has been reversed since by the RM event handler
+				if placeholder := result.Request.GetRelease(); placeholder != nil {
+					cc.notifyRMAllocationReleased(psc.RmID, psc.Name, []*objects.Allocation{placeholder}, si.TerminationType_PLACEHOLDER_REPLACED, "replacing allocationKey: "+result.Request.GetAllocationKey())
+				}
 			} else {
 				cc.notifyRMNewAllocation(psc.RmID, result.Request)
 			}
